@@ -44,6 +44,9 @@ Qed.
 Lemma cdata_of_ext n n' : n_type n' = n_type n -> n_content n' = n_content n -> cdata_of T n' = cdata_of T n.
 Proof. intros Ht Hc. unfold cdata_of, character_data. rewrite Ht, Hc. reflexivity. Qed.
 
+Lemma chars_content_elems l : chars_content l -> elem_ids l = [].
+Proof. intros [->|(d & ->)]; reflexivity. Qed.
+
 (* a node whose content is empty *)
 Lemma leaf_not_identifiable w n : n_content n = [] -> identifiable_n T w n = false.
 Proof. intros H. unfold identifiable_n, short_child. rewrite H. apply andb_false_r. Qed.
@@ -296,7 +299,7 @@ Proof.
   - rewrite (H_old _ _ Hj Hne) in Hj'. injection Hj' as <-. eapply HA; eauto.
 Qed.
 Lemma charsleaf_old j nj' : CharsLeaf T w -> content_mode T (n_type n) <> Val MCharacters -> old j -> w_nodes w' j = Some nj' ->
-  content_mode T (n_type nj') = Val MCharacters -> elem_ids (n_content nj') = [].
+  content_mode T (n_type nj') = Val MCharacters -> chars_content (n_content nj').
 Proof.
   intros HA Hm (nj & Hj) Hj' Hc. destruct (N.eq_dec j self) as [->|Hne].
   - rewrite H_self' in Hj'. injection Hj' as <-. cbn in Hc. contradiction.
